@@ -69,7 +69,7 @@ VNONE = 'VNone'
 
 def VRAISE(kind):
     return 'VRaise ' + {'value_error': 'ValueError', 'key_error': 'KeyError', 'assertion_error': 'AssertionError',
-                        'other': 'OtherError'}[kind]
+                        'other': 'OtherError'}.get(kind, 'OtherError')
 
 
 def outcome_val(outcome, ok_encoder):
